@@ -54,6 +54,20 @@ func init() {
 						j(repr, mk, "rest", "-")
 						j(repr, mk, "range", "-")
 					}
+					// container keys of different sizes (their order looks at the sizes first)
+					if m >= 1 && m <= 4 {
+						ck := "EATW"[:m]
+						if repr == "big" {
+							ck = "EATWMQ"[:min(m+2, 6)]
+						}
+						for _, arg := range []string{"E", "A", "T", "W", "M", "Q"} {
+							j(repr, ck, "set", arg)
+							j(repr, ck, "get", arg)
+							j(repr, ck, "delete", arg)
+						}
+						j(repr, ck, "rest", "-")
+						j(repr, ck, "append", "EW")
+					}
 					// Integer and Float keys interleaved numerically
 					lim := 2
 					if tier == "thorough" {
@@ -68,12 +82,21 @@ func init() {
 					}
 				}
 			}
+			// language-level programs: values of every kind (nil, zero, false, empty included), keys colliding in every way
+			vals := []string{"nil", "0", "false", `""`, "[]", "{}", "1.5", `"s"`}
+			for i, v1 := range vals {
+				for _, opseq := range []string{"del", "del,del", "set,del", "merge,del", "del,set", "set,merge,del", "del,merge"} {
+					v2, v3 := vals[(i+1)%len(vals)], vals[(i+3)%len(vals)]
+					jobs = append(jobs, Job{Prop: "C11", Pkg: "eval", Func: "VerifMapEval", Args: []string{v1, v2, v3, opseq}, MaxDec: 600})
+					jobs = append(jobs, Job{Prop: "C11", Pkg: "eval", Func: "VerifMapEval", Args: []string{v1, v1, "nil", opseq}, MaxDec: 600})
+				}
+			}
 			return jobs
 		},
 		Budget:    map[string]time.Duration{"quick": 6 * time.Minute, "thorough": 60 * time.Minute},
 		TimeoutMs: map[string]int{"quick": 60000, "thorough": 120000},
 		Reach:     []string{"promoted to big map", "lookup hit", "entry deleted"},
-		Bounds: map[string]interface{}{"pre_state": "any valid SmallMap with 0..4 pairs and any valid BigMap with 0..6 pairs (9 thorough), keys symbolic and assumed strictly increasing under the real Cmp (one inductive step: covers histories of any length provided the invariant is the one the code maintains, which every operation is checked to re-establish)",
+		Bounds: map[string]interface{}{"language_level": "112 programs: a 5-entry and a 2-entry map literal whose keys a, b are symbolic in 0..4 (colliding in every way) and whose values are nil, 0, false, the empty string / array / map, a float, a string; sequences of del / index assignment / + with key c; after each step del's result, len and the three lookups equal those of a reference finite map", "container_keys": "keys that are arrays of 0, 1, 2, 3 elements and maps of 1 and 3 pairs", "pre_state": "any valid SmallMap with 0..4 pairs and any valid BigMap with 0..6 pairs (9 thorough), keys symbolic and assumed strictly increasing under the real Cmp (one inductive step: covers histories of any length provided the invariant is the one the code maintains, which every operation is checked to re-establish)",
 			"keys":       "all int64 keys; mixed-type keys Integer/Float/Boolean/Nil/String(1 byte)/Array(1 int); interleaved Integer/Float keys for <=2 pairs (4 thorough); NaN keys excluded (documented)",
 			"operations": "Set, Get, Delete, Append (right operand 0,1,2,3,5 pairs), First, Rest, Range(l,r) for every 0<=l<=r<=len"},
 		Assumptions: []string{"Cmp is a strict weak order on the key universe (decided by C12)"},
